@@ -1062,6 +1062,7 @@ class CallMixin:
         r = self.fresh_val("comp", kind=kind if kind != "dict" else "dict")
         r.fresh = TRUE
         rs = f"(seqof {r.t})"
+        def_mark = len(s_ok.pc)       # everything assumed from here to the return defines r (engine.vc_text drops it when r is unused)
         ctor = {"list": "k_list", "set": "k_set", "dict": "k_dict"}[kind]
         s_ok.assume(f"({ctor} {r.t})")
         passes = Or(*[And(*pcx) for pcx, c, v in normal if c == TRUE]) if normal else FALSE
@@ -1093,6 +1094,7 @@ class CallMixin:
             s_ok.assume(f"(forall (({kq} String)) (! (=> (dhas {r.t} {kq}) (and {rng(ji)} {at(passes, ji)} (= {kv(ji, 0)} {kq}) (= (dval {r.t} {kq}) {kv(ji, 1)}) "
                         f"(forall (({j2} Int)) (=> (and (< {ji} {j2}) (< {j2} (seq.len {sq})) {at(passes, j2)}) (not (= {kv(j2, 0)} {kq})))))) :pattern ((dval {r.t} {kq})) :pattern ((dhas {r.t} {kq}))))")
             self.trusted_used.add("dict comprehension: the result is a well-formed dict; key present iff produced by a passing index; value from the last such index (library semantics of dict construction)")
+            self.def_groups[r.t] = set(s_ok.pc[def_mark:])
             out.append((s_ok, r))
             return out
         if skolem:
@@ -1128,14 +1130,15 @@ class CallMixin:
                     s_ok.assume(Eq(f"(= (seq.len {rs}) (seq.len {sq}))" if kind != "set" else TRUE, f"(forall (({q} Int)) (=> (and (<= 0 {q}) (< {q} (seq.len {sq}))) {pq}))") if kind != "set" else TRUE)
                     # every member of the result comes from a passing index
                     p = fresh_name("p")
-                    s_ok.assume(f"(forall (({q} Int)) (! (=> (and (<= 0 {q}) (< {q} (seq.len {rs}))) (exists (({p} Int)) (and (<= 0 {p}) (< {p} (seq.len {sq})) {at(passes, p)} (= (seq.nth {rs} {q}) {elt_term(p)})))) :pattern ((seq.nth {rs} {q}))))")
+                    index_only = self.contract.ghost.get("filter_facts") == "index"    # profile without the two member-image facts
+                    (s_ok.assume if not index_only else (lambda t_: None))(f"(forall (({q} Int)) (! (=> (and (<= 0 {q}) (< {q} (seq.len {rs}))) (exists (({p} Int)) (and (<= 0 {p}) (< {p} (seq.len {sq})) {at(passes, p)} (= (seq.nth {rs} {q}) {elt_term(p)})))) :pattern ((seq.nth {rs} {q}))))")
                     # the first member is the image of the first passing index
                     first = fresh_name("first")
                     self.declare(first, "Int")
                     s_ok.assume(f"(=> (> (seq.len {rs}) 0) (and (<= 0 {first}) (< {first} (seq.len {sq})) {at(passes, first)} (= (seq.nth {rs} 0) {elt_term(first)}) (forall (({q} Int)) (=> (and (<= 0 {q}) (< {q} {first})) {Not(pq)}))))")
                     # every passing index contributes a member
                     pp, qq = fresh_name("pp"), fresh_name("qq")
-                    s_ok.assume(f"(forall (({pp} Int)) (! (=> (and (<= 0 {pp}) (< {pp} (seq.len {sq})) {at(passes, pp)}) (exists (({qq} Int)) (and (<= 0 {qq}) (< {qq} (seq.len {rs})) (= (seq.nth {rs} {qq}) {elt_term(pp)})))) :pattern ((seq.nth {sq} {pp}))))")
+                    (s_ok.assume if not index_only else (lambda t_: None))(f"(forall (({pp} Int)) (! (=> (and (<= 0 {pp}) (< {pp} (seq.len {sq})) {at(passes, pp)}) (exists (({qq} Int)) (and (<= 0 {qq}) (< {qq} (seq.len {rs})) (= (seq.nth {rs} {qq}) {elt_term(pp)})))) :pattern ((seq.nth {sq} {pp}))))")
                 # membership form (identity element): a member of the source that passes is a member of the result
                 et = elt_term(j)
                 src_elem = f"(seq.nth {sq} {j})"
@@ -1153,7 +1156,10 @@ class CallMixin:
                 if lean:
                     self.trusted_used.add("filter comprehension [x for x in xs if p(x)] (membership profile): len(r) <= len(xs), every member of r satisfies p, "
                                           "x in r iff x in xs and p(x) (List.mem_filter)")
+                elif index_only:
+                  self.trusted_used.add("filter comprehension (index profile): len bounds, emptiness iff no index passes, all pass iff same length, first member from first passing index, >= 2 members iff two indices pass (List.filter/map lemmas)")
                 else:
                   self.trusted_used.add("filter comprehension: len bounds, emptiness iff no index passes, members are images of passing indices, first member from first passing index, >= 2 members iff two indices pass (List.filter/map lemmas)")
+        self.def_groups[r.t] = set(s_ok.pc[def_mark:])
         out.append((s_ok, r))
         return out
